@@ -98,7 +98,7 @@ def apply_site(site, circ, ovr, extra=None):
 def run_program(job):
     """job = {id, prog (model AST), sites: [(site, ovr)], text?}; returns the recorded cases"""
     prog = job['prog']
-    text = render.render_prog(prog)
+    text = job.get('text') or render.render_prog(prog, macros_last=job.get('macros_last', False))
     cases = []
     pout, circ = outcome(lambda: parse_prog(prog, text))
     cases.append({'id': job['id'] + '/parse', 'site': 'parse', 'inp': compress(prog), 'ovr': [], 'out': pout,
@@ -134,7 +134,7 @@ def override_choices(prog, rng, pool, max_sets):
 
 
 def run_property(prop, tier, configs, sites_fn, owned, nontrivial, rule, module='Conform_Pass', extra_jobs=None,
-                 shard_size=3000):
+                 shard_size=3000, variants=()):
     """Generic driver: enumerate (TLC) -> render/parse/apply passes (real code) -> validate (TLC)."""
     impl.guard_repo()
     rep = core.Report(prop, tier)
@@ -149,6 +149,10 @@ def run_property(prop, tier, configs, sites_fn, owned, nontrivial, rule, module=
             rep.cov['exhaustive'] = False
         for n, p in enumerate(progs):
             jobs.append({'id': '%s/%d' % (name, n), 'prog': p, 'sites': sites_fn(p, rng)})
+            if 'macros_last' in variants:
+                names = {m['v'] for m in p['macros']}
+                if p['macros'] and not any(("'v': '%s'" % nm) in repr(p['body']) for nm in names):
+                    jobs.append({'id': '%s/%d/ml' % (name, n), 'prog': p, 'sites': sites_fn(p, rng), 'macros_last': True})
     for f in rep.findings:
         if 'witness' in f and 'prog' in f['witness']:
             jobs.append({'id': 'witness/' + f['id'], 'prog': f['witness']['prog'],
